@@ -129,6 +129,18 @@ class C07(Check):
                 slow = slow or g >= 1.0
         if slow:
             knobs["STATE_MACHINE_TICKER"] = max(knobs["STATE_MACHINE_TICKER"], 0.002)
+        for cn in conns:
+            if cn["end"] == "peer_dpr" and rng2.random() < 0.25:
+                # two requests crossing at the end: a DWR and the DPR arrive in ONE segment; both are answered, in order
+                cn["dwr_with_dpr"] = [0x53000000 + rng2.getrandbits(20), 0x54000000 + rng2.getrandbits(20)]
+        if index % 16 == 13:
+            # volume: hundreds of watchdog requests on one connection (counters, name collisions, lists never trimmed)
+            nvol = rng2.choice([150, 300, 600])
+            conns[:] = conns[:1]
+            conns[0]["steps"] = [{"op": "dwr_burst", "ids": [[0x60000000 + i, 0x61000000 + (i * 7919) % 100003] for i in range(k, min(nvol, k + 50))],
+                                  "coalesce": (k // 50) % 2 == 0, "mix_app": False, "gap": 0.01} for k in range(0, nvol, 50)]
+            knobs["STATE_MACHINE_TICKER"] = max(knobs["STATE_MACHINE_TICKER"], 0.001)
+            scn["max_steps"] = 14_000_000
         return scn
 
     def shrink(self, scn):
@@ -275,7 +287,10 @@ class C07(Check):
                 nreq = sum(len(s["ids"]) if s["op"] in ("dwr_burst", "backlog_dwr") else 1 for s in cn["steps"]) + \
                     sum(s["n"] for s in cn["steps"] if s["op"] == "backlog_dwr")
                 sim.sleep(0.05 + 3 * tick * (nreq + 4))
-                if cn["end"] == "peer_dpr":
+                if cn["end"] == "peer_dpr" and cn.get("dwr_with_dpr"):
+                    w.peer.send_stream([C.dwr(PEER_HOST, PEER_REALM, hbh=cn["dwr_with_dpr"][0], e2e=cn["dwr_with_dpr"][1]),
+                                        C.dpr(PEER_HOST, PEER_REALM, hbh=cn["dpr"][0], e2e=cn["dpr"][1])])
+                elif cn["end"] == "peer_dpr":
                     w.peer.send(C.dpr(PEER_HOST, PEER_REALM, hbh=cn["dpr"][0], e2e=cn["dpr"][1]))
                 else:
                     w.call("close", w.node.close)
